@@ -343,3 +343,27 @@ pub fn run_prove(ctx: &mut Ctx, args: &[String]) {
                "CommitKey::compute_aggregate_witness", "Verifier::verify"]),
     );
 }
+
+/// `decode_probe <flag>`: a valid serialized prover whose FIRST commit-key point gets
+/// the given infinity-flag byte; reports what the checked decoder does.
+pub fn run_decode_probe(ctx: &mut Ctx, args: &[String]) {
+    let flag: u8 = args[0].parse().unwrap();
+    let circuit = TinyCircuit { kind: 1, a: BlsScalar::from(3u64), b: BlsScalar::from(5u64) };
+    let mut rng = crate::gadgets::ReplayRng(ctx.seed ^ 0xdec0de);
+    let pp = PublicParameters::setup(32, &mut rng).expect("setup");
+    let (prover, _v) = Compiler::compile_with_circuit(&pp, b"probe", &circuit).expect("compile");
+    let mut bytes = prover.to_bytes();
+    let rd = |b: &[u8], i: usize| u64::from_be_bytes(<[u8; 8]>::try_from(&b[8 * i..8 * i + 8]).unwrap()) as usize;
+    let (label_len, pk_len) = (rd(&bytes, 0), rd(&bytes, 1));
+    let off = 48 + label_len + pk_len + 8 + 96;
+    let old = bytes[off];
+    bytes[off] = flag;
+    let r = std::panic::catch_unwind(std::panic::AssertUnwindSafe(|| Prover::try_from_bytes(&bytes).map(|_| ())));
+    ctx.out_json("original_flag", json!(old));
+    ctx.out_json("flag", json!(flag));
+    ctx.out_json("outcome", match r {
+        Ok(Ok(())) => json!("Ok"),
+        Ok(Err(e)) => json!(format!("Err({:?})", e)),
+        Err(_) => json!("PANIC"),
+    });
+}
